@@ -201,7 +201,8 @@ ADDENDA = {
            "call (parseScript_int_spellings, quote_styles_scan, parse_ne_spelling), optional trailing semicolon and redundant parentheses for stable "
            "expression statements. The parser uses positions only by copying them (C14Parse: production_equivariant for all 49 productions, "
            "parse_pos_irrelevant, parse_layout_irrelevant from source text). Scanner tables REGENERATED from lexer.py on every run are proved equal to the "
-           "model's (C14Gen: number_classes_agree, transitions_agree, string_twins_agree, ...).",
+           "model's (C14Gen: number_classes_agree, transitions_agree, string_twins_agree, ...). Evaluation does not depend on source positions "
+           "(C14Eval: eval_pos_irrelevant through all 30 evaluator functions, session_pos_irrelevant, output_pos_irrelevant, erase_eval).",
     "C17": " date - date on exact millisecond stamps: (d + k) - d = k for dates with a time of day (diffDays_addDays), antisymmetry, truncation spec.",
     "C20": " Evaluator level (C20Eval): per construct the error carries the failing node's own position, errors propagate unchanged, a failing call adds "
            "exactly one trace entry with the call node's position, and every position in an outcome comes from an AST (error_pos_from_ast, "
